@@ -16,6 +16,7 @@ From Coq Require Import List NArith Permutation.
 From SWH.lib Require Import Bytes Hex.
 From SWH.model Require Import Dir Dedup.
 From SWH.proofs Require Import DirProofs DedupProofs.
+From SWH.proofs Require DedupExamples.
 Import ListNotations.
 
 (* Side condition on the table read from the source: the precedence order lists
